@@ -10,7 +10,6 @@ import enum
 import json
 import os
 import uuid as _uuid
-import warnings
 
 import numpy as np
 
